@@ -11,7 +11,8 @@
    checked differentially by the harness. *)
 From Coq Require Import List NArith ZArith Bool Arith.
 From BS Require Import Base.Sexp Base.Types Model.Heap Model.Iter Model.Attrs Model.Search
-                       Spec.Tree Spec.SearchSpec Proofs.Views Proofs.SearchProofs Proofs.SearchAxes.
+                       Spec.Tree Spec.SearchSpec Proofs.Views Proofs.EditRep Proofs.SearchProofs Proofs.SearchAxes Proofs.SearchHistories Spec.CssSpec Proofs.CssProofs
+                       Model.Edit Model.EditOps Model.Build.
 Import ListNotations.
 Local Open Scope nat_scope.
 
@@ -119,6 +120,27 @@ Theorem C10_parents_family : forall pat_sem fun_sem h xm T linked fuel,
 Proof. exact parents_family. Qed.
 Print Assumptions C10_parents_family.
 
+
+(* ---- end to end, in the property's own quantifier: parse ANY event list under ANY builder configuration, apply
+   ANY finite history of editing calls (C01: the state is then a consistent forest), take ANY live element x, any
+   side table of prefixes / attributes with XML-style names, any of the seven families a, any query of the domain:
+   there is a tree T of the forest with rep1 that contains x; the axis V of x (tree_axis: read off T's pre-order,
+   child lists and ancestor path; [] for the siblings of a root and for the neighbours of a document root that
+   stands outside the element chain) is what the family iterates, the plural method returns
+   take_limit (filter matches_spec V) and the singular method its head — with the fuel of the extracted model ---- *)
+Theorem C10_after_any_parse_and_history : forall pat_sem fun_sem xm cfg evs ops x,
+  let s := run_history (b_st (feed cfg evs)) ops in
+  live s x -> all_names_wf (hp s) xm ->
+  exists T b, rep1 (hp s) T b /\ In x (pre T) /\
+    forall a, exists V, tree_axis T b x a V /\
+      forall q, query_ok (method_query a q) = true ->
+        fst (find_all_method pat_sem fun_sem (hp s) xm (fuel_of s) a x q) =
+          find_all_spec pat_sem fun_sem (hp s) xm (fuel_of s) (method_query a q) V /\
+        fst (find_method pat_sem fun_sem (hp s) xm (fuel_of s) a x q) =
+          hd_error (filter (matches_spec pat_sem fun_sem (hp s) xm (fuel_of s) (method_query a q)) V).
+Proof. exact search_after_parse_and_history. Qed.
+Print Assumptions C10_after_any_parse_and_history.
+
 (* ---- calling a tag, and tag.name ---- *)
 Theorem C10_call_is_find_all : forall pat_sem fun_sem h xm fuel x recursive q,
   call_m pat_sem fun_sem h xm fuel x recursive q =
@@ -150,6 +172,37 @@ Theorem C10_name_function_called_once_prefix : forall pat_sem fun_sem h xm fuel 
   map (fun y => (SName, f, ArgEl y)) (filter (is_tag h) (firstn m L)).
 Proof. exact fun_called_once_prefix. Qed.
 Print Assumptions C10_name_function_called_once_prefix.
+
+
+(* ---- the CSS clause ----
+   Spec/CssSpec.v specifies select() on the selector subset both sides express (type, .class, #id, [attr],
+   [attr=v], compounds, descendant and child combinators, selector lists): css_matches / select_spec.  On that
+   subset, for every heap, side table, scope element and selector of the domain (class names are identifiers, no
+   attribute twice in a compound; trees without prefixes, class stored as a token list, "="-compared attributes
+   as one string), select() IS a composition of find_all-style calls of the model: the rightmost compound is one
+   find_all, "A > B" keeps the x whose find_parent(A) is its find_parent(), "A B" those for which find_parents(A)
+   contains a suitable element, a list is the document-order union.  soupsieve itself is third-party and
+   trusted; css_matches is tied to it by correspondence (harness), not by proof. *)
+Theorem C10_css_select_is_find_all : forall pat_sem fun_sem h xm fuel sel e,
+  selector_ok sel = true -> css_domain sel xm ->
+  select_spec h xm fuel sel e = select_fa pat_sem fun_sem h xm fuel sel e.
+Proof. exact select_is_find_all. Qed.
+Print Assumptions C10_css_select_is_find_all.
+
+Theorem C10_css_select_one_is_first : forall pat_sem fun_sem h xm fuel sel e,
+  selector_ok sel = true -> css_domain sel xm ->
+  select_one_spec h xm fuel sel e = hd_error (select_fa pat_sem fun_sem h xm fuel sel e).
+Proof. exact select_one_is_find_all. Qed.
+Print Assumptions C10_css_select_one_is_first.
+
+(* the selector domain is inhabited: div.x > a#k[href], b  on a tree whose elements carry class lists *)
+Theorem C10_css_domain_inhabited :
+  let sel := [mkcx (mkcomp (Some (lit_a)) [CId [107]%N; CAttr [104; 114; 101; 102]%N])
+                   [(Child, mkcomp (Some [100; 105; 118]%N) [CClass [120]%N])];
+              mkcx (mkcomp (Some lit_b) []) []] in
+  selector_ok sel = true /\ css_domain sel (fun _ => mkx None [(lit_class, AvList [[120]%N]); (lit_id, AvStr [107]%N)]).
+Proof. exact css_domain_example. Qed.
+Print Assumptions C10_css_domain_inhabited.
 
 (* ---- the boundary of the domain ---- *)
 
